@@ -145,33 +145,7 @@ def lexer_models():
             out.append((pat, f, name)); return f
         return deco
 
-    @reg(r'^<LazyLock<regex::Regex> as Deref>::deref$|^<LazyLock<Regex> as Deref>::deref$', 'regex:static(deref)')
-    def lazy(ctx, args, callee):
-        from mirsym.models_ext import RegexV
-        st = ctx.deref(args[0])
-        return Ref(Cell(RegexV(Str(st[1] if isinstance(st, tuple) else '<static>'))))
-
-    @reg(r'^regex::Regex::captures$', 'regex:captures(concrete text, python re for DATE_ALIKE_REGEX)')
-    def captures(ctx, args, callee):
-        s = as_str(ctx, args[1])
-        if s.s is None:
-            raise Unmodelled('captures of symbolic text')
-        m = re.search(r'(\d{4})-?(\d{2})?', s.s)
-        return some(('pycap', m)) if m else none()
-
-    @reg(r'^<regex::Captures<\'_> as (std::ops::)?Index<usize>>::index$', 'regex:Captures[i]')
-    def cap_index(ctx, args, callee):
-        return Str(ctx.deref(args[0])[1].group(conc(args[1])))
-
-    @reg(r'^regex::Captures::get$', 'regex:Captures::get')
-    def cap_get(ctx, args, callee):
-        g = ctx.deref(args[0])[1].group(conc(args[1]))
-        return none() if g is None else some(('pymatch', g))
-
-    @reg(r'^regex::Match::as_str$', 'regex:Match::as_str')
-    def m_as_str(ctx, args, callee):
-        return Str(ctx.deref(args[0])[1])
-
+    # static regexes (DATE_ALIKE_REGEX): the generic models of mirsym.models_ext — pattern text read from the tree's sources, Python re as the engine
     @reg(r'^(core::)?str::<impl str>::split$', 'str::split(closure) on concrete text')
     def split(ctx, args, callee):
         s = as_str(ctx, args[0])
